@@ -1,9 +1,15 @@
 //! C03: work per input is bounded by the screen size, not by numbers in the input.
 //! Oracle: every entry of the control-function table with extreme parameters, macro / hex-macro / sixel / Avatar /
 //! custom-font / binary-header cases, each timed in a crash-isolated worker with an address-space cap.
+//! Added: the bitmap-font loaders and palette importers (`@font:` / `@fontdcs.N:` / `@palf.F:` / `@pal.E:` cases of
+//! harness/src/fontpal.rs: headers declaring extreme sizes, a glyph height of 0 in front of data, palette count lines
+//! with huge numbers, overlong lines) timed the same way and compared with the model (`fontload …`), and the
+//! rectangle-area commands DECRQCRA / DECFRA / DECERA / DECSERA with every combination of extreme rectangle
+//! coordinates (`rect <cmd> <w> <h> <lf> <params>`): time, and the number of cells visited against the model's loop count
+//! (`rect crc|fill …`: checksum of a uniformly filled screen / cells changed).
 use crate::term::*;
 use crate::util::*;
-use icy_engine::{Buffer, Sixel};
+use icy_engine::{Buffer, BufferParser, CallbackAction, Sixel, TextPane};
 
 /// a token slower than this (debug build) counts as unbounded work; generous: the slowest legitimate token of the
 /// table (a macro replaying 40 screenfuls of REP) takes ~0.3 s here
@@ -42,8 +48,176 @@ pub fn worker(inp: &str, out: &std::path::Path) {
             emit(format!("X {} {} {}", cls, ms, bytes));
             return;
         }
+        if (line.starts_with('@') || line.starts_with("rect ")) && crate::fontpal::tripped(&crate::fontpal::family_of(line), 4) {
+            // four cases of this family were already slower than the threshold in this worker: the rest is not run
+            emit("SKIP".into());
+            return;
+        }
+        if line.starts_with('@') {
+            // a font / palette loader case (harness/src/fontpal.rs): timed, and compared with the model
+            let Some((tag, payload)) = line.split_once(':') else {
+                emit("BAD".into());
+                return;
+            };
+            let Some(bytes) = crate::icybox::unhexr(payload) else {
+                emit("BAD".into());
+                return;
+            };
+            let t0 = Stopwatch::start();
+            let Some(o) = crate::fontpal::observe(tag, &bytes) else {
+                emit("BAD".into());
+                return;
+            };
+            let ms = t0.ms();
+            if !(tag.starts_with("@pal") && bytes.len() > 8000) {
+                emit(format!("M {}", o.op));
+                emit(format!("I {}", o.obs));
+            }
+            emit(format!("L {} {} {} {}", tag, o.class, ms, bytes.len()));
+            if ms >= slow_ms() {
+                crate::fontpal::note_slow(&crate::fontpal::family_of(line));
+            }
+            return;
+        }
+        if let Some(rest) = line.strip_prefix("rect ") {
+            rect_case(rest, emit);
+            return;
+        }
         run_case(line, slow_ms(), emit);
     });
+}
+
+/// `rect <cmd> <w> <h> <lf> <params>`: one rectangle-area command on a screen filled with 'A' (after `lf` line feeds).
+/// cmd = crc (DECRQCRA `*y`), fra (DECFRA `$x`), era (DECERA `$z`), sera (DECSERA `${`).  Emits the model request
+/// (`rect crc …` / `rect fill …`), the observation and `RT <cmd> <ms>`.
+fn rect_case(rest: &str, emit: &mut dyn FnMut(String)) {
+    let f: Vec<&str> = rest.split_whitespace().collect();
+    if f.len() != 5 {
+        emit("BAD".into());
+        return;
+    }
+    let (cmd, ps) = (f[0], f[4]);
+    let (Ok(w), Ok(h), Ok(lf)) = (f[1].parse::<i32>(), f[2].parse::<i32>(), f[3].parse::<usize>()) else {
+        emit("BAD".into());
+        return;
+    };
+    let fin = match cmd {
+        "crc" => "*y",
+        "fra" => "$x",
+        "era" => "$z",
+        "sera" => "${",
+        _ => {
+            emit("BAD".into());
+            return;
+        }
+    };
+    let mut t = Term::new(Emu::Ansi(0), w, h);
+    for _ in 0..lf {
+        t.feed('\n');
+    }
+    for ch in "\x1b[65;1;1;2147483599;2147483599$x".chars() {
+        t.feed(ch);
+    }
+    let lines = t.buf.layers[0].lines.len();
+    let tw = t.buf.terminal_state.get_width();
+    let th = t.buf.terminal_state.get_height();
+    let not_a = |t: &Term| -> usize {
+        let l = &t.buf.layers[0];
+        (0..l.lines.len() as i32).map(|y| (0..tw).filter(|x| l.get_char((*x, y)).ch != 'A').count()).sum()
+    };
+    let before = not_a(&t);
+    let c0 = t.buf.get_char((0, 0));
+    let mut cell = vec![c0.ch as u8];
+    cell.extend(c0.attribute.attr.to_be_bytes());
+    cell.extend(c0.attribute.get_foreground().to_be_bytes());
+    cell.extend(c0.attribute.get_background().to_be_bytes());
+    let seq: Vec<char> = format!("\x1b[{}{}", ps, fin).chars().collect();
+    for ch in &seq[..seq.len() - 1] {
+        t.feed(*ch);
+    }
+    let last = seq[seq.len() - 1];
+    let t0 = Stopwatch::start();
+    let r = {
+        let (parser, buf, caret) = (&mut t.parser, &mut t.buf, &mut t.caret);
+        catch(std::panic::AssertUnwindSafe(|| parser.print_char(buf, 0, caret, last)))
+    };
+    let ms = t0.ms();
+    let obs = match r {
+        Err(loc) => format!("panic:{}", panic_site(&loc)),
+        Ok(Err(_)) => "err".to_string(),
+        Ok(Ok(act)) => {
+            if cmd == "crc" {
+                match act {
+                    CallbackAction::SendString(s) => {
+                        // ESC P <pid> ! ~ <XXXX> ESC \
+                        let body = s.trim_start_matches("\x1bP").trim_end_matches("\x1b\\");
+                        match body.split_once("!~") {
+                            Some((pid, crc)) => format!("ok {} {}", pid, crc),
+                            None => format!("ok-unparsed {}", hex(s.as_bytes())),
+                        }
+                    }
+                    _ => "ok-no-answer".to_string(),
+                }
+            } else {
+                format!("ok {}", not_a(&t).saturating_sub(before))
+            }
+        }
+    };
+    if before == 0 && ps.split(';').all(|p| !p.is_empty() && p.chars().all(|c| c.is_ascii_digit())) {
+        let psc = ps.replace(';', ",");
+        if cmd == "crc" {
+            emit(format!("M rect crc {} {} {} {}", tw, th, hex(&cell), psc));
+        } else {
+            emit(format!("M rect fill {} {} {} {} {}", if cmd == "fra" { 1 } else { 0 }, lines, tw, th, psc));
+        }
+        emit(format!("I {}", obs));
+    }
+    emit(format!("RT {} {} {}", cmd, ms, t.buf.layers[0].lines.len().saturating_sub(lines)));
+    if ms >= slow_ms() {
+        crate::fontpal::note_slow(&format!("rect:{}", cmd));
+    }
+}
+
+const RECT_EXTREMES: [i64; 5] = [65536, 1_000_000, 2147483599, 2147483647, 99_999_999_999];
+
+/// rectangle coordinates: each of top / left / bottom / right from {0, 1, size, size + 1, 65536, 10^6, 2147483599}
+/// (plus i32::MAX and an 11-digit number in thorough), `size` = height for rows and width for columns
+fn rect_values(size: i32, thorough: bool) -> Vec<String> {
+    let mut v: Vec<String> = vec!["0".into(), "1".into(), size.to_string(), (size + 1).to_string()];
+    for e in RECT_EXTREMES.iter().take(if thorough { 5 } else { 3 }) {
+        v.push(e.to_string());
+    }
+    v
+}
+
+fn rect_cases(w: i32, h: i32, lf: usize, rng: &mut Rng, thorough: bool, keep_1_in: u64) -> Vec<String> {
+    let mut v = Vec::new();
+    let rows = rect_values(h, thorough);
+    let cols = rect_values(w, thorough);
+    for cmd in ["crc", "fra", "era", "sera"] {
+        for t in &rows {
+            for l in &cols {
+                for b in &rows {
+                    for r in &cols {
+                        if keep_1_in > 1 && !rng.chance(1, keep_1_in) {
+                            continue;
+                        }
+                        let ps = match cmd {
+                            "crc" => format!("7;1;{};{};{};{}", t, l, b, r),
+                            "fra" => format!("90;{};{};{};{}", t, l, b, r),
+                            _ => format!("{};{};{};{}", t, l, b, r),
+                        };
+                        v.push(format!("rect {} {} {} {} {}", cmd, w, h, lf, ps));
+                    }
+                }
+            }
+        }
+        // wrong parameter counts, fill characters that are not characters
+        for ps in ["", "1", "1;2", "1;2;3", "1;2;3;4", "1;2;3;4;5", "1;2;3;4;5;6", "1;2;3;4;5;6;7", "1114112;1;1;2;2", "55296;1;1;2;2", "2147483599;1;1;2;2", "0;1;1;2;2"] {
+            v.push(format!("rect {} {} {} {} {}", cmd, w, h, lf, if ps.is_empty() { "0".to_string() } else { ps.to_string() }));
+        }
+    }
+    v
 }
 
 fn tok(label: &str, s: &str) -> Token {
@@ -128,7 +302,11 @@ pub fn run(run: &mut Run, seed: u64, thorough: bool, replay: Option<&str>, corpu
     std::fs::create_dir_all(&dir).unwrap();
     let mut cases: Vec<String> = Vec::new();
     let decode = |c: &str| -> String {
-        if c.starts_with("file_") || c.starts_with("sixel_") {
+        if c.starts_with('@') {
+            c.to_string()
+        } else if c.starts_with("rect_") {
+            c.replace('_', " ")
+        } else if c.starts_with("file_") || c.starts_with("sixel_") {
             c.replacen('_', " ", 1).replacen('_', " ", if c.starts_with("file_") { 1 } else { 0 })
         } else {
             // emu_w_h_hex[_labels]: labels may themselves contain underscores
@@ -167,6 +345,30 @@ pub fn run(run: &mut Run, seed: u64, thorough: bool, replay: Option<&str>, corpu
         // custom font DCS payloads: PSF2 header declaring extreme sizes (base64 of the header only)
         cases.push(case_line(Emu::Ansi(0), 80, 25, &[tok("DCSfont", "\x1bPCTerm:Font:1:crVKhgAAAAAgAAAAAAAAAP///38QAAAAEAAAAAgAAAA=\x1b\\")]));
         cases.push(case_line(Emu::Ansi(0), 80, 25, &[tok("DCSfont", "\x1bPCTerm:Font:1:NgQAAA==\x1b\\")]));
+        // the same loader with data behind a header that announces height 0, and the whole font / palette cost table:
+        // PSF1 / PSF2 headers declaring extreme sizes, raw fonts, DCS route; palette files with huge count lines, overlong lines
+        for c in font_cost_cases(&mut rng, thorough) {
+            cases.push(c);
+        }
+        // rectangle-area commands: every combination of extreme coordinates
+        cases.extend(rect_cases(80, 25, 0, &mut rng, thorough, 1));
+        cases.extend(rect_cases(7, 4, 0, &mut rng, thorough, if thorough { 1 } else { 4 }));
+        cases.extend(rect_cases(132, 60, 0, &mut rng, thorough, if thorough { 3 } else { 16 }));
+        cases.extend(rect_cases(80, 25, 30, &mut rng, thorough, if thorough { 2 } else { 8 }));
+        // ... and as ordinary streams (state correspondence with the terminal model, per-token time and row growth)
+        for (w, h) in [(80, 25), (7, 4)] {
+            let rows = rect_values(h, false);
+            let cols = rect_values(w, false);
+            for (inter_fin, lead) in [("*y", "7;1;"), ("$x", "90;"), ("$z", ""), ("${", "")] {
+                for _ in 0..(if thorough { 400 } else { 60 }) {
+                    let ps = format!("{}{};{};{};{}", lead, rng.pick(&rows[..]), rng.pick(&cols[..]), rng.pick(&rows[..]), rng.pick(&cols[..]));
+                    let pre = if rng.chance(1, 2) { tok("pre:fill", "\x1b[65;1;1;9999;9999$x") } else { tok("pre:scroll", &format!("{}AB", "\n".repeat(h as usize + 5))) };
+                    cases.push(case_line(Emu::Ansi(0), w, h, &[pre, tok(&format!("CSI{}", inter_fin), &format!("\x1b[{}{}", ps, inter_fin)), tok("post", "Z\n")]));
+                }
+            }
+            // tab report `CSI 2 $ w` after setting many tab stops
+            cases.push(case_line(Emu::Ansi(0), w, h, &[tok("pre:tabs", &"A\x1bH".repeat(w as usize + 5)), tok("CSI$w", "\x1b[2$w"), tok("CSI$w", "\x1b[2147483599$w")]));
+        }
         // binary headers declaring extreme width / height / font size
         let mut xb = b"XBIN\x1a".to_vec();
         for (w, h, fs, fl) in [(65535u16, 65535u16, 16u8, 0u8), (65535, 65535, 255, 0x1f), (0, 0, 0, 0), (65535, 1, 32, 4), (1, 65535, 0, 2)] {
@@ -201,21 +403,51 @@ pub fn run(run: &mut Run, seed: u64, thorough: bool, replay: Option<&str>, corpu
         cases.push(format!("file ans {}", hex(b"\x1b[2000000000CX\x1b[99999999b")));
         cases.push(format!("file bin {}", hex(&[65u8, 7])));
         cases.push(format!("file adf {}", hex(&[1u8; 300])));
+        cases.extend(binary_header_cases(thorough));
     }
     std::env::set_var("VERIF_WORKER_VMEM_KB", "6000000");
-    let results = run_in_workers("c03", &dir, &cases, 20);
+    // the loader and rectangle cases are cheap: they get their own worker chain (in parallel with the stream cases) whose
+    // no-progress timeout is 8 s (the per-case "slow" threshold is 3 s), so a loop that never ends costs 8 s, not 20 s
+    // (streams whose token is a rectangle command go with them: one family for the breaker)
+    let is_light = |c: &String| c.starts_with('@') || c.starts_with("rect ") || ["CSI$x", "CSI$z", "CSI${", "CSI*y", "CSI$w"].iter().any(|l| c.contains(l));
+    let (light, heavy): (Vec<String>, Vec<String>) = cases.iter().cloned().partition(|c| is_light(c));
+    let cases: Vec<String> = heavy.iter().chain(light.iter()).cloned().collect();
+    let results = if replay.is_some() || light.is_empty() {
+        run_in_workers("c03", &dir, &cases, 20)
+    } else {
+        let d2 = dir.join("light");
+        std::fs::create_dir_all(&d2).unwrap();
+        let l2 = light.clone();
+        let h = std::thread::spawn(move || crate::fontpal::run_in_workers_breaker("c03", &d2, &l2, 8, 4));
+        let mut r = run_in_workers("c03", &dir, &heavy, 20);
+        r.extend(h.join().unwrap());
+        r
+    };
     for (case, res) in cases.iter().zip(results.iter()) {
         let mut parts = case.split_whitespace();
         let first = parts.next().unwrap_or("?").to_string();
-        let short: String = if first == "file" || first == "sixel" { case.replace(' ', "_") } else { case.split_whitespace().take(4).collect::<Vec<_>>().join("_") };
-        let fam = if first.starts_with("ansi") { "ansi".to_string() } else { first.clone() };
+        let short: String = if first == "file" || first == "sixel" || first == "rect" || first.starts_with('@') {
+            case.replace(' ', "_")
+        } else {
+            case.split_whitespace().take(4).collect::<Vec<_>>().join("_")
+        };
+        let fam = if first.starts_with("ansi") {
+            "ansi".to_string()
+        } else if first.starts_with('@') {
+            // @font:…, @fontdcs.1:…, @palf.pal:…  ->  font / fontdcs / palf
+            first[1..].split(|c| c == ':' || c == '.').next().unwrap_or("font").to_string()
+        } else {
+            first.clone()
+        };
         run.count(&format!("kind:{}", fam));
         match res {
             Err(reason) => {
                 let label = if first == "sixel" {
                     "payload".to_string()
-                } else if first == "file" {
+                } else if first == "file" || first == "rect" {
                     case.split_whitespace().nth(1).unwrap_or("?").to_string()
+                } else if first.starts_with('@') {
+                    first[1..].split(':').next().unwrap_or("?").split('.').nth(1).unwrap_or("bytes").to_string()
                 } else {
                     case.split_whitespace().nth(4).map(|l| l.split(',').nth(1).unwrap_or("?").split('*').next().unwrap_or("?").to_string()).unwrap_or_else(|| "?".to_string())
                 };
@@ -242,6 +474,7 @@ pub fn run(run: &mut Run, seed: u64, thorough: bool, replay: Option<&str>, corpu
                     match p.first() {
                         Some(&"T") => run.oracle_fail(&format!("{}:{}:slow-or-grows", fam, p[2]), &short, &format!("token {} took {} ms and added {} rows", p[2], p[3], p[4])),
                         Some(&"F") => {
+                            run.count(&format!("file:{}:{}", p[1], p[2]));
                             let ms: u128 = p[3].parse().unwrap_or(0);
                             let cells: u64 = p[4].parse().unwrap_or(0);
                             if ms >= slow_ms() || cells > 8_000_000 {
@@ -259,6 +492,27 @@ pub fn run(run: &mut Run, seed: u64, thorough: bool, replay: Option<&str>, corpu
                             run.evaluations += 1;
                             run.nontrivial(fnv(case.bytes().map(|b| b as u64)));
                         }
+                        Some(&"L") => {
+                            // L <tag> <class> <ms> <len>: a font / palette loader
+                            run.count(&format!("loader:{}:{}", fam, p[2]));
+                            let ms: u128 = p[3].parse().unwrap_or(0);
+                            if ms >= slow_ms() {
+                                run.oracle_fail(&format!("{}:slow", fam), &short, &format!("loader case {} took {} ms for {} bytes", p[1], ms, p[4]));
+                            }
+                            run.evaluations += 1;
+                            run.nontrivial(fnv(case.bytes().map(|b| b as u64)));
+                        }
+                        Some(&"RT") => {
+                            // RT <cmd> <ms> <rows added>
+                            let ms: u128 = p[2].parse().unwrap_or(0);
+                            let grew: usize = p[3].parse().unwrap_or(0);
+                            if ms >= slow_ms() || grew > 200 {
+                                run.oracle_fail(&format!("rect:{}:slow-or-grows", p[1]), &short, &format!("rectangle command {} took {} ms and added {} rows", p[1], ms, grew));
+                            }
+                            run.evaluations += 1;
+                            run.nontrivial(fnv(case.bytes().map(|b| b as u64)));
+                        }
+                        Some(&"SKIP") => run.count("skipped:breaker(4 runaway or slow cases of this family before)"),
                         Some(&"P") => run.count("panic(C01)"),
                         Some(&"S") => {
                             run.evaluations += 1;
@@ -275,4 +529,198 @@ pub fn run(run: &mut Run, seed: u64, thorough: bool, replay: Option<&str>, corpu
             run.samples.push(c.chars().take(200).collect());
         }
     }
+}
+
+/// font / palette cases whose point is COST: sizes declared by a header against the bytes that back them
+fn font_cost_cases(rng: &mut Rng, thorough: bool) -> Vec<String> {
+    use crate::fontpal::*;
+    use crate::icybox::hexr;
+    let mut cs: Vec<String> = Vec::new();
+    let case = |tag: &str, b: &[u8]| format!("{}:{}", tag, hexr(b));
+    // PSF1: height 0 / 1 / 255 in front of data of every order of magnitude
+    for charsize in [0u8, 1, 2, 16, 255] {
+        for mode in [0u8, 1, 0xFF] {
+            for l in [0usize, 1, 255, 4096, 65536, 262144] {
+                if l > 70000 && !(thorough || charsize == 0 || charsize == 1) {
+                    continue;
+                }
+                // (a height of 0 in front of data is the case that never ended on the pinned tree: a few of them suffice)
+                if charsize == 0 && !thorough && (mode == 0xFF || l == 255 || l == 65536) {
+                    continue;
+                }
+                cs.push(case("@font", &psf1(mode, charsize, l, 0x5A)));
+            }
+        }
+    }
+    for (mode, charsize, l) in [(0u8, 0u8, 1usize), (1, 0, 40), (0, 0, 3000), (0, 1, 256), (1, 255, 70000)] {
+        cs.push(case("@fontdcs.1", &psf1(mode, charsize, l, 0x5A)));
+    }
+    // PSF2: every size field at every extreme, with no data and with a little data behind the header
+    for fi in 2..8usize {
+        for v in U32_EXTREMES {
+            for n in [0usize, 64, 4096] {
+                let mut f = [PSF2_MAGIC, 0, 32, 0, 256, 16, 16, 8];
+                f[fi] = v;
+                cs.push(case("@font", &psf2(f, n, 0x77)));
+            }
+            let mut f = [PSF2_MAGIC, 0, 32, 0, 4, 2, 2, 8];
+            f[fi] = v;
+            cs.push(case("@fontdcs.1", &psf2(f, 8, 0x77)));
+        }
+    }
+    // consistent PSF2 headers whose numbers are large but backed by the file
+    for (len, h, w) in [(65536u32, 1u32, 8u32), (1, 65535, 8), (1, 1, 0x7FFF8), (200_000, 1, 1)] {
+        let rowb = (w + 7) / 8;
+        let charsize = h * rowb;
+        cs.push(case("@font", &psf2([PSF2_MAGIC, 0, 32, 0, len, charsize, h, w], (len * charsize) as usize, 0x0F)));
+    }
+    // raw fonts: big multiples of 256 and their neighbours
+    for l in [256usize, 8192, 8448, 65536, 65537, 1 << 20] {
+        cs.push(case("@font", &vec![0x33u8; l]));
+    }
+    // palettes: the numbers a file can announce; long lines; many lines
+    for n in NUMBERS {
+        cs.push(case("@palf.pal", format!("JASC-PAL\n0100\n{}\n1 2 3\n", n).as_bytes()));
+        cs.push(case("@pal.pal", format!("JASC-PAL\n{}\n{}\n{} {} {}\n", n, n, n, n, n).as_bytes()));
+        cs.push(case("@palf.gpl", format!("GIMP Palette\nColumns: {}\n#Colors: {}\n{} {} {} x\n", n, n, n, n, n).as_bytes()));
+        cs.push(case("@palf.ice", format!("ICE Palette\n#Colors: {}\n{}\n", n, n).as_bytes()));
+        cs.push(case("@palf.txt", format!(";Colors: {}\n{}\nFF112233\n", n, n).as_bytes()));
+        cs.push(case("@palf.hex", format!("{}\n", n).as_bytes()));
+    }
+    let big = if thorough { 1_000_000 } else { 100_000 };
+    for fmt in ["ice", "hex", "pal", "gpl", "txt"] {
+        let magic = match fmt {
+            "pal" => "JASC-PAL\n0100\n1\n",
+            "gpl" => "GIMP Palette\n",
+            "ice" => "ICE Palette\n",
+            _ => "",
+        };
+        for (fill, tail) in [(b'1', " 2 3\n"), (b'f', "\n"), (b' ', "1 2 3\n"), (b'\n', "1 2 3\n"), (b'#', "Name: x\n")] {
+            let mut t = magic.as_bytes().to_vec();
+            t.extend(std::iter::repeat(fill).take(big));
+            t.extend(tail.as_bytes());
+            cs.push(case(&format!("@palf.{}", fmt), &t));
+        }
+        let mut t = magic.as_bytes().to_vec();
+        for i in 0..(big / 50) {
+            t.extend(format!("{} {} {} c\n{:06x}\n", i % 256, i % 7, i % 300, i).as_bytes());
+        }
+        cs.push(case(&format!("@palf.{}", fmt), &t));
+    }
+    let _ = rng;
+    cs
+}
+
+/// a SAUCE record (with the EOF byte in front) announcing `tinfo1` x `tinfo2`
+fn sauce_record(datatype: u8, filetype: u8, tinfo1: u16, tinfo2: u16) -> Vec<u8> {
+    let mut v = vec![0x1Au8];
+    v.extend(b"SAUCE00");
+    v.extend(std::iter::repeat(b' ').take(35 + 20 + 20));
+    v.extend(b"20240101");
+    v.extend(0u32.to_le_bytes());
+    v.push(datatype);
+    v.push(filetype);
+    v.extend(tinfo1.to_le_bytes());
+    v.extend(tinfo2.to_le_bytes());
+    v.extend([0u8; 4]);
+    v.push(0);
+    v.push(0);
+    v.extend([0u8; 22]);
+    debug_assert_eq!(v.len(), 129);
+    v
+}
+
+/// "every binary file header declaring extreme width / height / font size": well-formed XBin / IDF / ADF / BIN / Tundra /
+/// IcyDraw files whose header (or SAUCE record) announces sizes far beyond the few bytes of content that follow
+fn binary_header_cases(thorough: bool) -> Vec<String> {
+    let mut cs: Vec<String> = Vec::new();
+    // XBin: size x font height x flags, palette and font blocks as announced, then a little data
+    for (w, h) in [(65535u16, 65535u16), (4096, 65535), (4097, 1), (1, 65535), (65535, 1), (0, 0), (80, 25)] {
+        for fs in [0u8, 1, 16, 32, 33, 255] {
+            for flags in [0u8, 1, 2, 3, 4, 7, 0x13, 0x17, 0x1F] {
+                if !thorough && (fs == 1 || fs == 33) && flags != 7 {
+                    continue;
+                }
+                let mut d = b"XBIN\x1a".to_vec();
+                d.extend(w.to_le_bytes());
+                d.extend(h.to_le_bytes());
+                d.push(fs);
+                d.push(flags);
+                if flags & 1 != 0 {
+                    d.extend([0x2Au8; 48]);
+                }
+                if flags & 2 != 0 {
+                    let n = (if fs == 0 { 16 } else { fs as usize }) * 256 * if flags & 0x10 != 0 { 2 } else { 1 };
+                    d.extend(std::iter::repeat(0x18u8).take(n));
+                }
+                if flags & 4 != 0 {
+                    for _ in 0..200 {
+                        d.extend([0xFF, 0x41, 0x07]); // Full run of 64 cells
+                    }
+                    d.extend([0x3F, 0x41]); // a run cut off
+                } else {
+                    d.extend(std::iter::repeat([0x41u8, 0x07]).take(300).flatten());
+                }
+                cs.push(format!("file xb {}", hex(&d)));
+            }
+        }
+    }
+    // IDF: x2 (width - 1) and RLE counts at extremes; the font and palette blocks follow the data
+    for x2 in [0u16, 1, 79, 80, 4095, 65535] {
+        for cnt in [0u16, 1, 80, 65535] {
+            for reps in [1usize, 200] {
+                let mut d = b"\x041.4".to_vec();
+                d.extend(0u16.to_le_bytes());
+                d.extend(0u16.to_le_bytes());
+                d.extend(x2.to_le_bytes());
+                d.extend(0xFFFFu16.to_le_bytes());
+                for _ in 0..reps {
+                    d.extend([1, 0]);
+                    d.extend(cnt.to_le_bytes());
+                    d.extend([0x41, 0x07]);
+                }
+                d.extend([0x11u8; 4096]);
+                d.extend([0x3Fu8; 48]);
+                cs.push(format!("file idf {}", hex(&d)));
+            }
+        }
+    }
+    // ADF (fixed geometry) and BIN / ANSI / PCBoard with a SAUCE record announcing extreme sizes
+    let mut adf = vec![1u8];
+    adf.extend([0x15u8; 192]);
+    adf.extend([0x22u8; 4096]);
+    adf.extend(std::iter::repeat([0x41u8, 0x07]).take(400).flatten());
+    cs.push(format!("file adf {}", hex(&adf)));
+    for t1 in [0u16, 1, 80, 1000, 1001, 65535] {
+        for t2 in [0u16, 1, 25, 65535] {
+            let mut b = std::iter::repeat([0x41u8, 0x07]).take(200).flatten().collect::<Vec<u8>>();
+            b.extend(sauce_record(5, (t1 & 0xFF) as u8, t1, t2));
+            cs.push(format!("file bin {}", hex(&b)));
+            let mut adf2 = adf.clone();
+            adf2.extend(sauce_record(1, 1, t1, t2));
+            cs.push(format!("file adf {}", hex(&adf2)));
+            for ext in ["ans", "pcb", "avt", "asc"] {
+                let mut a = b"hello\r\nworld\x1b[5;5Hx".to_vec();
+                a.extend(sauce_record(1, 1, t1, t2));
+                cs.push(format!("file {} {}", ext, hex(&a)));
+            }
+            let mut x = b"XBIN\x1a\x50\x00\x19\x00\x10\x00".to_vec();
+            x.extend(std::iter::repeat([0x41u8, 0x07]).take(100).flatten());
+            x.extend(sauce_record(6, 0, t1, t2));
+            cs.push(format!("file xb {}", hex(&x)));
+        }
+    }
+    // IcyDraw: ICED header and LAYER chunk announcing big sizes with one or two rows of content.  (A layer 2^31-1 cells wide
+    // is C02's finding icyc:abort-alloc - one full-width row per row touched; here: sizes that must still be cheap.)
+    for (bw, bh) in [(80u32, 25u32), (1_000_000, 1_000_000), (0x7FFF_FFFF, 0x7FFF_FFFF)] {
+        for (lw, lh) in [(1u32, 1u32), (100_000, 1), (1, 1_000_000), (1_000_000, 1_000_000), (3_000_000, 2)] {
+            // two short cells on row 0, end of line, one on row 1
+            let cells: Vec<u8> = vec![0x01, 0x40, 0x41, 7, 0x01, 0x40, 0x42, 7];
+            let mut p = crate::c02::layer_header(b"t", 0, 0, 1, 0, 0, lw, lh, cells.len() as u64);
+            p.extend(&cells);
+            let file = crate::icybox::icy_container(&[("ICED".to_string(), crate::c02::iced_header(bw, bh)), ("LAYER_0".to_string(), p)]);
+            cs.push(format!("file icy {}", hex(&file)));
+        }
+    }
+    cs
 }
